@@ -35,10 +35,92 @@ def plan(tier):
     return q + (t if tier == "thorough" else [])
 
 
+EQ_EXPR = {"Rational": "1/2", "BigRational": "(/ 1 (expt 10 30))", "Complex": "(make-rectangular 1 2)", "ByteVector": "(bytes 1 2)",
+           "BigNum": "(expt 10 30)", "StringV": "\"s\"", "SymbolV": "'sym", "CharV": "#\\a", "NumV": "1.5", "IntV": "7", "BoolV": "#t", "Void": "(void)"}
+
+
 def check(pid, tier, seed):
-    return p_kani.check(pid, tier, seed, SPECS, plan(tier), FUNCS, {"containers": "2 bytes / 3 characters", "integers": "full 64-bit", "unwind": "6-8"},
-                        ASSUME, RULE, slots=4)
+    run = p_kani.check(pid, tier, seed, SPECS, plan(tier), FUNCS, {"containers": "2 bytes / 3 characters", "integers": "full 64-bit", "unwind": "6-8"},
+                       ASSUME, RULE, slots=4)
+    eqtab_obligation(run)
+    return run
+
+
+def eqtab_obligation(run):
+    """E3g: every kind that `PartialEq for SteelVal` compares by value at the top level also has an arm in the
+    equality handler's match for nested values (lib/p_eqtab.py: MIR decision trees -> z3)"""
+    import os, re, json, shutil, subprocess, time
+    import ws, p_eqtab, p_kinds
+    oid = "eqtab:nested-equality-has-an-arm-for-every-scalar-kind"
+    t0 = time.time()
+    try:
+        wsdir = ws.prepare("c11mir", [])
+        root = os.path.dirname(wsdir)
+        out = os.path.join(root, "steel_core.mir")
+        env = ws.mir_dump(wsdir, root, out)
+        kinds = p_kinds.variants(os.path.join(wsdir, "crates", "steel-core", "src"))
+        r = p_eqtab.analyse(open(out).read(), kinds)
+    except Exception as ex:
+        run.ob(oid, "inconclusive", reason="extraction failed: %s" % str(ex)[-300:], engine="mir-smt")
+        return
+    common = dict(engine="mir-smt/z3", wall_s=round(time.time() - t0, 1), solver_s=round(r["dt"], 3), solver_checks=len(kinds))
+    run.samples.append({"engine": "mir-smt", "query": "exists kind k (of %d): PartialEq::eq has an arm of its own for (k, k) AND RecursiveEqualityHandler::visit sends (k, k) to its catch-all" % len(kinds),
+                        "kinds with a top-level arm": r["top"], "kinds with an arm in the handler": r["nested"]})
+    run.functions.append("rvals::cycles::{<SteelVal as PartialEq>::eq, RecursiveEqualityHandler::visit}: decision trees of `match (left, right)` (MIR)")
+    if r["res"] == "error" or len(r["top"]) < 8 or len(r["nested"]) < 15:
+        run.ob(oid, "inconclusive", reason="solver error or vacuous tables (%d / %d kinds)" % (len(r["top"]), len(r["nested"])), **common)
+        return
+    if r["res"] == "unsat":
+        run.ob(oid, "pass", nonvacuous=True, note="%d kinds compared by value at the top level, each has an arm for nested values" % len(r["top"]), **common)
+        return
+    what = "kinds %s are compared by value by `==` on the values themselves but fall into the catch-all (not equal) of the handler that compares nested values" % ", ".join(r["missing"])
+    obs = None
+    try:
+        shutil.copy(os.path.join(ws.VERIF, "harness", "arity_replay.rs"), os.path.join(wsdir, "crates", "steel-core", "tests", "verif_arity_replay.rs"))
+        for k in r["missing"]:
+            if k not in EQ_EXPR:
+                continue
+            p = subprocess.run(["cargo", "test", "--offline", "-p", "steel-core", "--no-default-features", "--features", ws.FEATURES,
+                                "--test", "verif_arity_replay", "--target-dir", os.path.join(root, "tn"), "--", "eqtab_replay", "--exact", "--nocapture"],
+                               cwd=wsdir, env=dict(env, VERIF_EQ_EXPR=EQ_EXPR[k]), capture_output=True, text=True, timeout=2400)
+            m = re.search(r"OBSERVED: (.*)", p.stdout + p.stderr)
+            if m:
+                obs = (k, m.group(1))
+                break
+    except Exception as ex:
+        run.ob(oid, "inconclusive", reason="replay failed: %s" % str(ex)[-300:], **common)
+        return
+    if not obs:
+        run.ob(oid, "inconclusive", reason="solver: %s; not reproduced through equal? on nested values" % what, **common)
+        return
+    d = os.path.join(ws.VERIF, "replays", run.pid)
+    os.makedirs(d, exist_ok=True)
+    path = os.path.join(d, "eqtab.json")
+    json.dump({"property": run.pid, "kind": "eqtab", "what": what, "value_kind": obs[0], "expr": EQ_EXPR[obs[0]], "observed": obs[1], "how": "./check %s --replay <this file>" % run.pid}, open(path, "w"), indent=1)
+    key = "eqtab:%s" % "+".join(r["missing"])
+    if run.is_known(key):
+        run.known_hit(key, run.known[(run.pid, key)] + " -- " + obs[1][:200])
+        run.ob(oid, "known", nonvacuous=True, **common)
+    else:
+        run.violation(key, "%s; natively: %s" % (what, obs[1][:300]), path)
+        run.ob(oid, "fail", note=obs[1][:200], **common)
 
 
 def replay(pid, path):
+    import json
+    payload = json.load(open(path))
+    if payload.get("kind") == "eqtab":
+        import os, re, shutil, subprocess, ws
+        wsdir = ws.prepare("c11replay", [])
+        root = os.path.dirname(wsdir)
+        shutil.copy(os.path.join(ws.VERIF, "harness", "arity_replay.rs"), os.path.join(wsdir, "crates", "steel-core", "tests", "verif_arity_replay.rs"))
+        p = subprocess.run(["cargo", "test", "--offline", "-p", "steel-core", "--no-default-features", "--features", ws.FEATURES,
+                            "--test", "verif_arity_replay", "--target-dir", os.path.join(root, "tn"), "--", "eqtab_replay", "--exact", "--nocapture"],
+                           cwd=wsdir, env=dict(os.environ, VERIF_EQ_EXPR=payload["expr"]), capture_output=True, text=True)
+        m = re.search(r"OBSERVED: (.*)", p.stdout + p.stderr)
+        print("observed:", m.group(1) if m else "not reproduced")
+        if m:
+            print("VIOLATION property=%s replay=%s" % (pid, path))
+            return 1
+        return 0
     return p_kani.replay(pid, path)
